@@ -33,7 +33,7 @@ package keeper
 //@ func (Keeper).VerifyDeposit
 // C20: "no parameter history can make a deposit's tax reach its value, make a credited amount zero, or accept dust" are the
 // tax_below_value / min_amount / value_identity clauses below, under the parameter bounds the C20 handler contracts maintain.
-//@ property C03 C20
+//@ property C03 C20 C04
 //@ requires inv20: st.bitcoin.Params.DepositTaxRate < 10000 && st.bitcoin.Params.MinDepositAmount >= 1000
 //@ requires nonnil: deposit != nil && deposit.RelayerPubkey != nil
 //@ requires voted_below_tip: forall(h, 0, 18446744073709551616, has(st.bitcoin.BlockHashes, h) ==> h <= st.bitcoin.BlockTip)
